@@ -24,6 +24,11 @@ def main():
     imports_findings = [c for c in cand if not c['why'].startswith('output depends on the order')]
     if imports_findings:
         rep.part('note', text=f'{len(imports_findings)} import-specification finding(s) on these paths belong to C03 and are reported there')
+    # which instantiation of a generic type reaches the shared file first must not matter (shared with C03)
+    try:
+        c03.generic_instantiation_part(rep)
+    except Unsupported as e:
+        rep.inconclusive.append(f'generic instantiation part: {e}')
     # shared files: order of exports
     c05.setup()
     c05.G['time_budget'] = 2400 if quick else 9000
